@@ -71,7 +71,7 @@ def gen_case(rng, frontend=None):
             continue   # mostly writes: they are what can interfere
         if framer == 'rtu' and 'raw' in r and len(r['raw']) != r.get('byte_count', r.get('write_byte_count')):
             continue   # on RTU the byte count field delimits the frame: a mismatch is a framing error, not a request
-        tid = rng.randrange(65536)
+        tid = rng.choice([0, 1, 0xFFFF, rng.randrange(65536), rng.randrange(65536), rng.randrange(65536)])
         f = serverlib.frame_request(framer, r, uid, tid)
         if framer == 'binary' and framelib.has_delim(f):
             continue
@@ -221,6 +221,76 @@ def check(ctx, rep, cases):
     return results
 
 
+def gen_noisy(rng):
+    """a noisy serial line in front of a multi-unit server: now and then the beginning of a frame addressed to one hosted unit
+    (cut before its end, no terminator) is followed - in the same read or the next - by a complete valid request to ANOTHER
+    hosted unit.  Whatever the receiver makes of the damaged bytes, only a complete valid frame is a request: the unit named
+    in the cut-off frame must not change."""
+    fe = rng.choice(['syncSerial', 'syncTcp', 'aioTcp', 'twistedTcp'])
+    framer = rng.choice([f for f in serverlib.FRAMERS_FOR[fe] if f in ('rtu', 'ascii', 'binary')])
+    hosted = rng.choice([[1, 2], [2, 5, 17], [1, 2, 3, 4], [1, 0x11]])
+    _, units = serverlib.gen_units(rng, hosted=hosted)
+    ncell = rng.choice([8, 16, 40])
+    units = [[u, {'blocks': [{'kind': 'seq', 'address': 0, 'values': [0] * ncell}], 'd': 0, 'c': 0, 'i': 0, 'h': 0, 'zero': True}] for u, _ in units]
+
+    def req_frame(uid):
+        for _ in range(40):
+            r = execlib.gen_req(rng, units[0][1], [], 0.0)
+            if r['t'].startswith('read') and r['t'] != 'readWrite':
+                continue
+            if 'raw' in r and len(r['raw']) != r.get('byte_count', r.get('write_byte_count')):
+                continue
+            f = serverlib.frame_request(framer, r, uid, 0)
+            if framer == 'binary' and framelib.has_delim(f):
+                continue
+            return r, f
+        return None, None
+    chunks, allowed = [], []
+    for _ in range(rng.choice([1, 2, 4, 8])):
+        b = rng.choice(hosted)
+        r, f = req_frame(b)
+        if f is None:
+            continue
+        if rng.random() < 0.6:
+            a = rng.choice([u for u in hosted if u != b])
+            _, fa = req_frame(a)
+            if fa is not None:
+                body_end = len(fa) - (2 if framer == 'ascii' else 1)        # before CR LF / before the end delimiter / inside the CRC
+                stump = fa[:rng.randrange(1, max(2, body_end))]
+                if rng.random() < 0.5:
+                    chunks.append(stump + f)
+                    allowed.append(b)
+                    continue
+                chunks.append(stump)
+                allowed.append(None)
+        chunks.append(f)
+        allowed.append(b)
+    return dict(frontend=fe, framer=framer, single=False, units=units, ignore_missing=rng.random() < 0.5, broadcast=False,
+                chunks=chunks, allowed=allowed, steps=[])
+
+
+def check_noisy(ctx, rep, cases):
+    for c, a in zip(cases, serverlib.ask_model(ctx, cases)):
+        real, before, per_step = serverlib.run_real_steps(c)
+        case = {k: c[k] for k in ('frontend', 'framer', 'single', 'units', 'ignore_missing', 'broadcast', 'chunks', 'allowed')}
+        case['kind'] = 'noisy'
+        rep.case(('noisy', c['frontend'], c['framer'], str(c['chunks'])), nontrivial=any(d != before for d in per_step),
+                 tag='noisy:%s:%s' % (c['frontend'], c['framer']))
+        same = serverlib.compare(rep, case, real, a, 'noisy line vs Server.callback')
+        prev = before
+        for i, (al, now) in enumerate(zip(c['allowed'], per_step)):
+            touched = [u for (u, d0), (_, d1) in zip(prev, now) if d0 != d1 and u != al]
+            if touched:
+                if same:
+                    # the proven model does the same: the damaged bytes happen to pass the checksum (a false frame, 2^-16)
+                    rep.hist['excluded:false-frame'] += 1
+                else:
+                    rep.violation('the tables of a unit changed although no complete valid frame in the received bytes addresses it '
+                                  '(a cut-off frame named it)', case, index=i, changed_units=touched, valid_frame_for=al)
+                break
+            prev = now
+
+
 def run(ctx):
     rep = Report(RULE)
     rng = ctx.rng
@@ -239,6 +309,7 @@ def run(ctx):
         cases = [c for c in cases if c['chunks']]
         check(ctx, rep, cases)
         done += len(cases)
+        check_noisy(ctx, rep, [gen_noisy(rng) for _ in range(25)])
     rep.notes.extend(sorted(run_real_stepwise.notes))
     return rep
 
@@ -247,7 +318,10 @@ def replay(ctx, payload):
     rep = Report(RULE)
     c = dict(payload['case'])
     c.setdefault('steps', [])
-    check(ctx, rep, [c])
+    if c.get('kind') == 'noisy':
+        check_noisy(ctx, rep, [c])
+    else:
+        check(ctx, rep, [c])
     if rep.violations:
         return rep.violations[0]['what']
     if rep.disagreements:
